@@ -224,6 +224,8 @@ class StoreModel(Model):
         for s, t in (('G1', 'G2'), ('G1', 'G3'), ('G2', 'G1'), ('G2', 'G3'), ('G3', 'G1')):
             ev.append(('clone', s, t))
         ev.append(('delete_all',))
+        # one more importer comes to life - the other way to call its constructor (with a logger): changes nothing
+        ev.append(('new_importer', 'logger'))
         return ev
 
     def apply(self, ev):
@@ -272,6 +274,13 @@ class StoreModel(Model):
                 self.graph(ev[1]).clone_graph(new_graph_id=ev[2])
             elif k == 'delete_all':
                 self.imp().delete_all_graphs()
+            elif k == 'new_importer':
+                import logging
+                lg = logging.getLogger('c04-importer')
+                lg.propagate = False
+                if not lg.handlers:
+                    lg.addHandler(logging.NullHandler())
+                type(self.imp())(logger=lg)
             else:
                 raise AssertionError(ev)
             return ('ok',)
